@@ -325,16 +325,39 @@ func addrIPPort(a net.Addr) (net.IP, int) {
 // Refresh performs a Refresh and updates/checks the model.
 func (m *Model) Refresh(c *RawClient, lifetime *uint32) *wire.Msg {
 	a, st := m.Alloc(c)
+	famOpt := c.RefreshFamily
+	c.RefreshFamily = 0
+	if a == nil {
+		famOpt = 0
+	}
 	resp, _ := m.do(c, wire.MethodRefresh, func(b *wire.Builder) {
 		if lifetime != nil {
 			b.AddU32(wire.AttrLifetime, *lifetime)
 		}
+		if famOpt != 0 {
+			fam := byte(1)
+			if (a.Fam == 6) == (famOpt == 1) {
+				fam = 2
+			}
+			b.Add(wire.AttrRequestedAddressFamily, []byte{fam, 0, 0, 0})
+		}
 	})
 	code := codeOf(resp)
-	m.Rec.Tracef("%s Refresh(%v) alloc=%s -> %d", c.Name, derefU32(lifetime), st, code)
+	m.Rec.Tracef("%s Refresh(%v famopt=%d) alloc=%s -> %d", c.Name, derefU32(lifetime), famOpt, st, code)
 	m.Rec.Ev("req/refresh")
 	userOK := a != nil && a.User == c.User
 	switch {
+	case famOpt == 2 && userOK && st != Dead:
+		// the other family: the server may refuse (443); whatever it answers must be what it did
+		m.Rec.FP("refresh/other-family/%d", code)
+		if code == 0 {
+			lt, _ := resp.Lifetime()
+			if lt == 0 {
+				a.Gone, a.GoneAt = true, time.Now()
+			} else {
+				a.Exp = time.Now().Add(time.Duration(lt) * time.Second)
+			}
+		}
 	case st == Live && userOK:
 		if code != 0 {
 			m.Rec.Violate("refresh-unexpected", fmt.Sprintf("live-%d", code), "%s: Refresh on live allocation answered %d", c.Name, code)
@@ -351,7 +374,7 @@ func (m *Model) Refresh(c *RawClient, lifetime *uint32) *wire.Msg {
 			m.Rec.FP("refresh/delete")
 		} else {
 			a.Exp = time.Now().Add(time.Duration(lt) * time.Second)
-			m.Rec.FP("refresh/ok/life%s", lifeClass(lifetime))
+			m.Rec.FP("refresh/ok/life%s/fam=%v", lifeClass(lifetime), famOpt == 1)
 		}
 	case st == Maybe && userOK:
 		m.Rec.Ev("may/refresh-at-expiry")
